@@ -115,3 +115,23 @@ def opt_bag(b):
     if b:
         return len(b)
     return 0
+
+
+class OPair:
+    def __init__(self, a, b):
+        self.a = a
+        self.b = b
+
+    @property
+    def total(self):
+        return self.a + self.b
+
+    @property
+    def big(self):
+        return self.a > 10
+
+
+def use_prop(p):
+    if p.big:
+        return p.total
+    return 0
